@@ -49,6 +49,7 @@ def elem_type(t):
     return '?'
 
 
+_TRANSPARENT = re.compile(r'^std::(ptr::(Unique|NonNull)|mem::(ManuallyDrop|MaybeDangling|MaybeUninit))<')
 _INT_TYPES = set(INT_RANGES) - {'bool', 'char'}
 _INT_CONST = re.compile(r'^(-?\d+)_(i8|i16|i32|i64|i128|isize|u8|u16|u32|u64|u128|usize)$')
 _FLOAT_CONST = re.compile(r'^(-?[0-9.]+(?:[eE][-+]?\d+)?)f(32|64)$')
@@ -128,6 +129,7 @@ class Executor:
         self.const_cache = {}
         self.log = log
         self.memo = {}
+        self.env = {}
         self.bound_notes = set()
         self.pow_apps = []
 
@@ -242,6 +244,8 @@ class Executor:
         r = f(zint(b), zint(e))
         self.assume(z3.Implies(zint(e) == 0, r == 1))
         self.assume(z3.Implies(zint(e) == 1, r == zint(b)))
+        self.assume(z3.Implies(zint(b) > 0, r > 0))
+        self.assume(z3.Implies(zint(b) != 0, r != 0))
         self.note_bound('exponentiation with a symbolic exponent is uninterpreted (only b^0, b^1 known)')
         return r
 
@@ -295,6 +299,8 @@ class Executor:
                 else:
                     raise Unmodelled('deref of %r in %s' % (v, frame.fn.name))
             elif k == 'field':
+                if _TRANSPARENT.match(p[2]):
+                    continue      # Box internals / MaybeUninit wrappers are transparent in the value model
                 path = path + (p[1],)
             elif k == 'downcast':
                 pass
